@@ -296,7 +296,7 @@ func runC01(tier string) int {
 		"reference lowering (model/lower.go) = meaning of the README for if/elif/else, while, do...while, break, continue, switch, labels, goto",
 		"operands are distinct per leaf, so every path is feasible (a superset of programs that reuse operands)")
 	return r.Finish(r.Get("evaluations"), r.Get("nontrivial"),
-		"every script body with exactly n nodes of each family (count+unrank, bijective, so cases are distinct by construction) x every goto assignment, plus every sequence of <= L statement templates (29 templates covering every construct), plus 11 control-flow shapes whose conditions and switch operands are AutoVar commands (empty bodies, trailing elifs, loops, switches containing switches), plus the dead-label programs (a label and gotos to it, directly and inside every block kind, after every kind of dead position), plus the sequences of <= L-1 templates with their body, every block, or one statement moved into the selected case of a poryswitch, plus scaled programs (every template repeated K times, every block kind nested K deep, switches with K cases, for every K up to the scale bounds in the coverage), plus two-script files in which gotos cross between the scripts (targets: own labels, a label in the middle of the other script, the other script, an external name), x optimize on/off; each case = full product exploration reference x emitted, all game states closed by a visited set; non-trivial = at least one environment branch point and >= 2 distinct observable events")
+		"every script body with exactly n nodes of each family (count+unrank, bijective, so cases are distinct by construction) x every goto assignment, plus every sequence of <= L statement templates (29 templates covering every construct), plus 13 control-flow shapes whose conditions and switch operands are AutoVar commands (empty bodies, trailing elifs, loops, switches containing switches), plus the dead-label programs (a label and gotos to it, directly and inside every block kind, after every kind of dead position), plus the sequences of <= L-1 templates with their body, every block, or one statement moved into the selected case of a poryswitch, plus scaled programs (every template repeated K times, every block kind nested K deep, switches with K cases, for every K up to the scale bounds in the coverage), plus two-script files in which gotos cross between the scripts (targets: own labels, a label in the middle of the other script, the other script, an external name), x optimize on/off; each case = full product exploration reference x emitted, all game states closed by a visited set; non-trivial = at least one environment branch point and >= 2 distinct observable events")
 }
 
 // c01Shape is a coarse shape tag for findings matching.
@@ -418,6 +418,8 @@ func c01AutoVarPrograms() []engineProgram {
 				{{Kind: model.SIf, Arms: []model.Arm{{Cond: fl("F1"), Body: []model.Stmt{mcmd("c1")}}, {Cond: auto(1), Body: nil}}, HasElse: true, Else: nil}},
 				{{Kind: model.SIf, Arms: []model.Arm{{Cond: fl("F1"), Body: []model.Stmt{mcmd("c1")}}, {Cond: fl("G1"), Body: nil}, {Cond: auto(1), Body: nil}}}},
 				{{Kind: model.SIf, Arms: []model.Arm{{Cond: auto(1), Body: nil}}}},
+				{{Kind: model.SIf, Arms: []model.Arm{{Cond: fl("F1"), Body: nil}, {Cond: auto(1), Body: nil}}}},
+				{{Kind: model.SIf, Arms: []model.Arm{{Cond: fl("F1"), Body: nil}, {Cond: auto(1), Body: nil}}, HasElse: true, Else: nil}},
 				{{Kind: model.SIf, Arms: []model.Arm{{Cond: &model.Cond{Kind: model.CAnd, L: fl("F1"), R: auto(1)}, Body: nil}}, HasElse: true, Else: nil}},
 				{{Kind: model.SWhile, Cond: auto(1), Body: []model.Stmt{mcmd("c1"), ifBreak}}},
 				{{Kind: model.SDoWhile, Cond: auto(1), Body: []model.Stmt{mcmd("c1"), ifBreak}}},
